@@ -3,7 +3,7 @@
 // This source code is licensed under the MIT license found in the
 // LICENSE file in the root directory of this source tree.
 
-use alloc::vec::Vec;
+use alloc::{string::ToString, vec::Vec};
 use core::iter::FusedIterator;
 
 use math::FieldElement;
@@ -46,16 +46,28 @@ impl<E: FieldElement> Table<E> {
         num_rows: usize,
         num_cols: usize,
     ) -> Result<Self, DeserializationError> {
-        assert!(num_rows > 0, "number of rows must be greater than 0");
-        assert!(
-            num_rows < MAX_ROWS,
-            "number of rows cannot exceed {MAX_ROWS}, but was {num_rows}"
-        );
-        assert!(num_cols > 0, "number of columns must be greater than 0");
-        assert!(
-            num_cols < MAX_ROWS,
-            "number of columns cannot exceed {MAX_COLS}, but was {num_cols}"
-        );
+        // the table dimensions come from the proof being parsed: refuse bad ones with an error;
+        // up to MAX_ROWS rows (unique queries) and MAX_COLS columns (trace width) are valid
+        if num_rows == 0 {
+            return Err(DeserializationError::InvalidValue(
+                "number of rows must be greater than 0".to_string(),
+            ));
+        }
+        if num_rows > MAX_ROWS {
+            return Err(DeserializationError::InvalidValue(format!(
+                "number of rows cannot exceed {MAX_ROWS}, but was {num_rows}"
+            )));
+        }
+        if num_cols == 0 {
+            return Err(DeserializationError::InvalidValue(
+                "number of columns must be greater than 0".to_string(),
+            ));
+        }
+        if num_cols > MAX_COLS {
+            return Err(DeserializationError::InvalidValue(format!(
+                "number of columns cannot exceed {MAX_COLS}, but was {num_cols}"
+            )));
+        }
 
         let mut reader = SliceReader::new(bytes);
         let num_elements = num_rows * num_cols;
